@@ -59,4 +59,11 @@ var propSpecs = []PropSpec{
 		NotDecided:  "equality of diagnostic multisets across compositions; state kept in maps of workflow scope (RuleJobNeeds.nodes) is by design",
 		Assumptions: commonAssumptions,
 	},
+	{
+		ID:          "C10",
+		Rules:       []string{"C10.COW", "C10.IMM", "C10.LOCK", "C10.CONF", "C10.CAP", "C10.INST", "C10.PREFIX", "C10.SIB"},
+		Explanation: "Decides the sharing discipline of multi-file runs: (COW) every write through ExprSemanticsChecker.vars is dominated by the copy of the table (and by the deep copy of github for nested writes), the copy functions install fresh maps and every DeepCopy copies its components deeply; (IMM) no mutation site reachable from the per-file check acts on data flowing from a package-level table or the shared Config; (LOCK) every access to the cache maps shared by files happens between Lock and Unlock of its mutex; (CONF) functions that are not thread-safe are unreachable from the goroutines; (CAP) goroutine bodies capture no loop variable; (INST) rules are created per file inside check; (PREFIX) project containment is separator-aware; (SIB) the caches handed to check belong to the project handed to check.",
+		NotDecided:  "absence of all data races (no happens-before model of third-party code); LintFiles == LintFile result equality; agreement of the two derivations of a reusable workflow's interface is decided under C14.SIB",
+		Assumptions: commonAssumptions,
+	},
 }
